@@ -59,8 +59,8 @@ func VerifFixIPv6HostPort(addr string) string { return fixIPv6HostPort(addr) }
 // VerifRedisErrorView exposes the type byte and the raw text of a *RedisError.
 func VerifRedisErrorView(e *RedisError) (typ byte, text string) { return e.typ, e.string() }
 
-// VerifMsgAttrs returns the attribute message attached to m, if any.
-func VerifMsgAttrs(m RedisMessage) (RedisMessage, bool) {
+// VerifAccMsgAttrs returns the attribute message attached to m, if any.
+func VerifAccMsgAttrs(m RedisMessage) (RedisMessage, bool) {
 	if m.attrs == nil {
 		return RedisMessage{}, false
 	}
